@@ -32,17 +32,24 @@ pub const C05_RULES: &[&str] = &[
     "final_content_differs",
     "final_index_unreadable",
 ];
+pub const C04_RULES: &[&str] = &["content_differs_after_merge", "index_unreadable_after_merge", "final_content_differs", "final_index_unreadable"];
 /// reported for both: the harness cannot tell whose they are
 pub const SHARED_RULES: &[&str] = &["call_fails", "writer_action_panics", "scenario_panics"];
 
 pub fn belongs(prop: &str, rule: &str) -> bool {
-    let own = if prop == "C10" { C10_RULES } else { C05_RULES };
+    let own = match prop {
+        "C10" => C10_RULES,
+        "C04" => C04_RULES,
+        _ => C05_RULES,
+    };
     own.contains(&rule) || SHARED_RULES.contains(&rule)
 }
 
 fn relevant(prop: &str, k: &Kind) -> bool {
     match (prop, k) {
-        ("C05", Kind::GcVsWriters { .. }) => false,
+        ("C04", Kind::MergeVsOps { .. }) | ("C04", Kind::MergeVsRestart) => true,
+        ("C04", _) => false,
+        ("C05", Kind::GcVsWriters { .. }) | ("C05", Kind::MergeVsOps { .. }) => false,
         _ => true,
     }
 }
